@@ -250,6 +250,10 @@ impl Ctx {
     pub fn n_viol_sigs(&self) -> usize {
         self.viols.len()
     }
+    /// total number of violations recorded so far (all signatures)
+    pub fn n_viols(&self) -> u64 {
+        self.viols.values().map(|v| v.count).sum()
+    }
 
     pub fn finish(mut self) {
         let wall = self.start.elapsed().as_secs_f64();
